@@ -2357,3 +2357,50 @@ Definition ex_exec_conf (rs : rsrc) (c : config) (e : engine) (input : bytes) : 
   | SOk, true, Ok st' => Some (exec_start c (eset_v e1 (vset_st (e_v e1) st')))
   | _, _, _ => None
   end.
+
+(* ---- the entry function of WithFirst runs through the same loop ------------------------------- *)
+Definition first_start (lang : option bytes) (e : engine) : option conf :=
+  match st_down (v_st (e_v e)) first_sym with
+  | Ok st1 =>
+    Some (lang, first_code,
+          mkVm st1 (cache_push (v_ca (e_v e))) (page_with_menu (page_reset new_page) (vm_new_menu []))
+               (v_w (e_v e)) (v_log (e_v e)) (v_taint (e_v e)))
+  | _ => None
+  end.
+
+Lemma st_down_keeps st sym st1 : st_down st sym = Ok st1 -> s_lang st1 = s_lang st /\ s_flags st1 = s_flags st.
+Proof.
+  unfold st_down. destruct (MaxLevel <? len (s_path st)); [discriminate|].
+  destruct (s_path st); [intros H; injection H as <-; auto|].
+  destruct (bytes_eqb _ sym); [discriminate|]. intros H; injection H as <-; auto.
+Qed.
+
+Lemma run_first_calls fuel c lang e script :
+  c_first c = Some script -> lang_inv lang (v_st (e_v e)) ->
+  exists new, v_log (e_v (fst (fst (run_first fuel c lang e)))) = new ++ v_log (e_v e)
+    /\ Forall (fun ev => match ev with
+                         | EvFunc _ l _ => exists c0 l2 b2 v2, first_start lang e = Some c0
+                                             /\ reaches (first_rsrc script) [] c0 (l2, b2, v2)
+                                             /\ l = eff_lang l2 (v_st v2)
+                                             /\ (l = s_lang (v_st v2) \/ s_lang (v_st v2) = None)
+                         | EvRender _ _ _ => False
+                         | _ => True end) new.
+Proof.
+  intros Hc Hi. unfold run_first, first_start. rewrite Hc.
+  destruct (st_down (v_st (e_v e)) first_sym) as [st1|er|n] eqn:Hd;
+    [|exists []; split; [reflexivity|constructor]|exists []; split; [reflexivity|constructor]].
+  destruct (st_down_keeps _ _ _ Hd) as [El Ef].
+  set (v1 := mkVm st1 (cache_push (v_ca (e_v e))) (page_with_menu (page_reset new_page) (vm_new_menu []))
+                  (v_w (e_v e)) (v_log (e_v e)) (v_taint (e_v e))).
+  assert (Hi1 : lang_inv lang (v_st v1)).
+  { unfold lang_inv, lang_follows, getf in *. cbn [v_st v1]. rewrite El, Ef. exact Hi. }
+  destruct (run_funcs_lang_lemma (first_rsrc script) [] fuel lang first_code v1 Hi1) as [new [E F]].
+  destruct (run fuel (first_rsrc script) [] lang first_code v1) as [[v2 b] s]. cbn [fst] in E.
+  exists new. split.
+  - destruct s; [destruct b; [destruct (getf (v_st v2) FLAG_TERMINATE)|]| | |];
+      try (destruct (cache_last (v_ca v2)) as [ex ca2]); cbn [fst e_v v_log]; exact E.
+  - eapply Forall_impl; [|exact F]. intros ev Hev. destruct ev; auto.
+    destruct Hev as [l2 [b2 [v2' [Hr [H1 H2]]]]]. exists (lang, first_code, v1), l2, b2, v2'. auto.
+Qed.
+
+Definition ex_cfg_first : config := mkCfg 0 [] 1 0 (s2b "no") [] false (Some [ex_fr "hello" []]).
